@@ -3,9 +3,45 @@
 #ifndef TETL_CMATH_FMAX_HPP
 #define TETL_CMATH_FMAX_HPP
 
+#include <etl/_config/all.hpp>
+
 #include <etl/_3rd_party/gcem/gcem.hpp>
+#include <etl/_concepts/same_as.hpp>
+#include <etl/_type_traits/is_constant_evaluated.hpp>
 
 namespace etl {
+
+namespace detail {
+
+inline constexpr struct fmax {
+    template <typename Float>
+    [[nodiscard]] constexpr auto operator()(Float x, Float y) const noexcept -> Float
+    {
+#if not defined(__AVR__)
+        if (not is_constant_evaluated()) {
+    #if __has_builtin(__builtin_fmaxf)
+            if constexpr (etl::same_as<Float, float>) {
+                return __builtin_fmaxf(x, y);
+            }
+    #endif
+    #if __has_builtin(__builtin_fmax)
+            if constexpr (etl::same_as<Float, double>) {
+                return __builtin_fmax(x, y);
+            }
+    #endif
+        }
+#endif
+        if (x != x) {
+            return y;
+        }
+        if (y != y) {
+            return x;
+        }
+        return x < y ? y : x;
+    }
+} fmax;
+
+} // namespace detail
 
 /// \ingroup cmath
 /// @{
@@ -14,20 +50,20 @@ namespace etl {
 /// missing data (between a NaN and a numeric value, the numeric value is chosen)
 ///
 /// https://en.cppreference.com/w/cpp/numeric/math/fmax
-[[nodiscard]] constexpr auto fmax(float x, float y) noexcept -> float { return etl::detail::gcem::max(x, y); }
+[[nodiscard]] constexpr auto fmax(float x, float y) noexcept -> float { return etl::detail::fmax(x, y); }
 
-[[nodiscard]] constexpr auto fmaxf(float x, float y) noexcept -> float { return etl::detail::gcem::max(x, y); }
+[[nodiscard]] constexpr auto fmaxf(float x, float y) noexcept -> float { return etl::detail::fmax(x, y); }
 
-[[nodiscard]] constexpr auto fmax(double x, double y) noexcept -> double { return etl::detail::gcem::max(x, y); }
+[[nodiscard]] constexpr auto fmax(double x, double y) noexcept -> double { return etl::detail::fmax(x, y); }
 
 [[nodiscard]] constexpr auto fmax(long double x, long double y) noexcept -> long double
 {
-    return etl::detail::gcem::max(x, y);
+    return etl::detail::fmax(x, y);
 }
 
 [[nodiscard]] constexpr auto fmaxl(long double x, long double y) noexcept -> long double
 {
-    return etl::detail::gcem::max(x, y);
+    return etl::detail::fmax(x, y);
 }
 
 /// @}
